@@ -13,10 +13,10 @@ RULE = ("seeded abstract messages over the whole grammar (21 kinds, sampled opti
         "kind changed to a sibling kind) and compared with == "
         "and != against the original, plus an independently rebuilt copy; a pair is non-trivial when the two structural "
         "views differ (perturbation) or are identical (copy); distinct = hash(original, perturbation)")
-ASSUMPTIONS = ["the structural view (vf.ref.view) reads instance attributes only; '' == absent text, () == absent children, "
+ASSUMPTIONS = ["the structural view (vf.ref.view) reads instance attributes only and strips text, except for the white-space-only perturbation where the stored values are compared as they are; '' == absent text, () == absent children, "
                "0 == '0' are not demanded to differ",
                "messages are built through the library constructors, as a user would"]
-REQUIRED_EVENTS = ["pairs_unequal_expected", "pairs_equal_expected", "child_index_perturbations", "child_kind_pairs"]
+REQUIRED_EVENTS = ["pairs_unequal_expected", "pairs_equal_expected", "child_index_perturbations", "child_kind_pairs", "whitespace_only_pairs"]
 SHARDED = True
 
 QUICK_SHARDS = 4
@@ -102,6 +102,12 @@ def perturbations(rng, am):
                     m = copy.deepcopy(am)
                     m["children"][i]["text"] = t[:pos] + repl + t[pos + 1:]
                     yield f"child-value-one-char-flipped@{i}", m
+            if c.get("text"):
+                # text that differs in surrounding white space only (a padded number, a payload with a trailing newline)
+                for k, t2 in enumerate((c["text"] + " ", " " + c["text"], c["text"] + "\n", "\t" + c["text"])):
+                    m = copy.deepcopy(am)
+                    m["children"][i]["text"] = t2
+                    yield f"child-value-whitespace-added:{k}@{i}", m
             for a in c["attrs"]:
                 if a == "name":
                     continue
@@ -177,6 +183,11 @@ def check_pair(ctx, am, label, bm, case):
     va, vb = view_lib(a), view_lib(b)
     # sanity of the harness: the library object must look like the abstract message
     differ = va != vb
+    if not differ and label.startswith("child-value-whitespace"):
+        # the structural view strips text (as an XML round trip does); here the stored text values themselves are compared
+        differ = [getattr(c, "value", None) for c in getattr(a, "children", ())] != [getattr(c, "value", None) for c in getattr(b, "children", ())]
+        if differ:
+            ctx.count("whitespace_only_pairs")
     if not differ:
         ctx.count("perturbation_without_view_change")
         return
